@@ -17,15 +17,15 @@
 From NL Require Import Stdout.Spec Stdout.Proofs.
 Open Scope Z_scope.
 
-(** every reported piece is non-empty, ends with NL, and carries a trace
-    number (never None) *)
+(** every reported piece is non-empty, ends with NL (it may contain several
+    lines), and carries a trace number (never None) *)
 Theorem C13_pieces_end_at_newline : forall ws k line,
   In (k, line) (events ws) -> k <> None /\ exists body, line = body ++ [NL].
 Proof. exact model_pieces_end. Qed.
 
 (** exactly once and in order, for the trace that wrote it: the concatenation
-    of the pieces reported for trace n, followed by what n has written since
-    its last write that ended in NL, is exactly what n wrote -- whatever the
+    of the pieces reported for trace n, followed by what n has written after
+    the last reported newline, is exactly what n wrote -- whatever the
     other writers did in between *)
 Theorem C13_exactly_once_in_order : forall ws n, n <> 0 ->
   reported_of (Some n) (events ws) ++ unflushed (Some n) ws = writes_of (Some n) ws.
@@ -56,69 +56,42 @@ Theorem C13_spec_upto_last_nl : forall t,
                (upto_last_nl t = [] \/ ends_nl (upto_last_nl t) = true).
 Proof. exact upto_decomp. Qed.
 
-(** "up to the last newline that thread or task wrote".
-    The full-strength statement
-        forall ws n, n <> 0 ->
-          reported_of (Some n) (events ws) = upto_last_nl (writes_of (Some n) ws)
-    is FALSE for the code as it is: the buffer of a trace is flushed only by a
-    write that ENDS in NL, so a line completed in the middle of a write stays
-    in the buffer. *)
-Theorem C13_up_to_last_newline_refuted : exists ws n, n <> 0 /\
-  reported_of (Some n) (events ws) <> upto_last_nl (writes_of (Some n) ws).
-Proof.
-  (* sys.stdout.write('d\ne') from trace 1 *)
-  exists [Wr (Some 1) [100; 10; 101]], 1. split; [discriminate|].
-  vm_compute. discriminate.
-Qed.
-
-(** exactly when it holds: iff no NL is left in what the trace wrote after its
-    last NL-terminated write *)
-Theorem C13_up_to_last_newline_iff : forall ws n, n <> 0 ->
-  (reported_of (Some n) (events ws) = upto_last_nl (writes_of (Some n) ws)
-   <-> has_nl (unflushed (Some n) ws) = false).
-Proof. exact model_upto_iff. Qed.
-
-(** the strongest general statement that holds.  ADDED HYPOTHESIS
-    [nl_only_at_end ws]: every write that contains NL ends with NL (true of
-    `print` with newline-free arguments and of line-wise writes; not of
-    sys.stdout.write('d\ne')). *)
-Theorem C13_up_to_last_newline_partial : forall ws, nl_only_at_end ws ->
-  forall n, n <> 0 ->
+(** "up to the last newline that thread or task wrote": for every list of
+    writes and every trace, the reported text is the longest prefix of what
+    the trace wrote that ends in NL -- also when a line is completed in the
+    middle of a write (sys.stdout.write('d\ne')) and whatever the other
+    writers do in between. *)
+Theorem C13_up_to_last_newline : forall ws n, n <> 0 ->
   reported_of (Some n) (events ws) = upto_last_nl (writes_of (Some n) ws).
-Proof. exact model_upto_partial. Qed.
+Proof. exact model_upto. Qed.
 
-(** the same with the hypothesis restricted to the writes of that trace: what
-    the other threads / tasks write does not matter *)
-Theorem C13_up_to_last_newline_partial_per_trace : forall ws n, n <> 0 ->
-  nl_only_at_end_for (Some n) ws ->
-  reported_of (Some n) (events ws) = upto_last_nl (writes_of (Some n) ws).
-Proof. exact model_upto_partial_per_trace. Qed.
+(** what has been written but not yet reported never contains a newline *)
+Theorem C13_pending_has_no_newline : forall ws n,
+  has_nl (unflushed (Some n) ws) = false.
+Proof. exact model_pending_no_nl. Qed.
 
-(** non-vacuity: two traces and untraced code interleaved, lines assembled
-    from partial writes (print('a','b') = 'a',' ','b','\n'), an empty write,
-    an unfinished last line; the hypothesis of the partial theorem holds, the
-    reported pieces are non-trivial, the untraced text reaches only the real
-    stdout *)
+(** non-vacuity: two traces and untraced code interleaved; lines assembled
+    from partial writes (print('a','b') = 'a',' ','b','\n'); an empty write;
+    a write with an embedded newline followed by a partial line ('y\nq' by
+    trace 2, 'd\ne' by trace 1: the piece stops at the newline, the rest is
+    kept); a piece with several lines ('c\nd\n'); trace 2 ends with an
+    unfinished line; the untraced text reaches only the real stdout *)
 Definition ex_ws : list label :=
   [Wr (Some 1) [97]; Wr (Some 2) [120]; Wr (Some 1) [32]; Wr None [117; 10]; Wr (Some 1) [98];
-   Wr (Some 2) [121; 10]; Wr (Some 1) [10]; Wr (Some 1) []; Wr (Some 2) [10]; Wr (Some 1) [99; 10];
-   Wr (Some 2) [122]].
+   Wr (Some 2) [121; 10; 113]; Wr (Some 1) [10]; Wr (Some 1) []; Wr (Some 2) [10];
+   Wr (Some 1) [99; 10; 100; 10; 101]; Wr (Some 2) [122]; Wr (Some 1) [102; 10]].
 
 Example C13_example_nonvacuous :
-  nl_only_at_end ex_ws /\
   events ex_ws = [(Some 2, txt [120; 121; 10]); (Some 1, txt [97; 32; 98; 10]);
-                  (Some 2, txt [10]); (Some 1, txt [99; 10])] /\
-  writes_of (Some 2) ex_ws = txt [120; 121; 10; 10; 122] /\
-  reported_of (Some 2) (events ex_ws) = txt [120; 121; 10; 10] /\
-  upto_last_nl (writes_of (Some 2) ex_ws) = txt [120; 121; 10; 10] /\
+                  (Some 2, txt [113; 10]); (Some 1, txt [99; 10; 100; 10]);
+                  (Some 1, txt [101; 102; 10])] /\
+  writes_of (Some 2) ex_ws = txt [120; 121; 10; 113; 10; 122] /\
+  reported_of (Some 2) (events ex_ws) = txt [120; 121; 10; 113; 10] /\
+  upto_last_nl (writes_of (Some 2) ex_ws) = txt [120; 121; 10; 113; 10] /\
   unflushed (Some 2) ex_ws = txt [122] /\
+  reported_of (Some 1) (events ex_ws) = writes_of (Some 1) ex_ws /\
   real ex_ws = map text_of ex_ws.
-Proof.
-  split.
-  - intros a s I. unfold ex_ws in I. simpl in I.
-    repeat (destruct I as [I|I]; [inversion I; subst; vm_compute; auto|]). contradiction.
-  - vm_compute. repeat split; reflexivity.
-Qed.
+Proof. vm_compute. repeat split; reflexivity. Qed.
 
 Print Assumptions C13_pieces_end_at_newline.
 Print Assumptions C13_exactly_once_in_order.
@@ -127,7 +100,5 @@ Print Assumptions C13_interleaving_independent.
 Print Assumptions C13_untraced_dropped.
 Print Assumptions C13_passthrough.
 Print Assumptions C13_spec_upto_last_nl.
-Print Assumptions C13_up_to_last_newline_refuted.
-Print Assumptions C13_up_to_last_newline_iff.
-Print Assumptions C13_up_to_last_newline_partial.
-Print Assumptions C13_up_to_last_newline_partial_per_trace.
+Print Assumptions C13_up_to_last_newline.
+Print Assumptions C13_pending_has_no_newline.
